@@ -785,7 +785,12 @@ def run_options_case(case):
     solver = mk_solver(spec)
     eff = dict(case["init"])
     psi, tl = mk_state(spec, ("sup", 1, 2)), tl_of((0, 2, 4))
+    equal_old = False
     for d, run_between in case["assign"]:
+        if d.get("method", eff["method"]) != eff["method"] and any(
+                k != "method" and k in solver.options and solver.options[k] == v
+                for k, v in d.items()):
+            equal_old = True     # a value equal to the old integrator's current one
         solver.options = dict(d)
         eff = opt_effective(eff, d)
         if run_between:
@@ -797,14 +802,7 @@ def run_options_case(case):
     bit, worst = same_states(got, ref)
     if not wrong and bit:
         return None
-    changed = any("method" in d and d["method"] != case["init"]["method"] for d, _ in case["assign"])
-    equal_old = False
-    cur = dict(case["init"])
-    for d, _ in case["assign"]:
-        if d.get("method", cur["method"]) != cur["method"] and \
-                any(k != "method" and cur.get(k) == v for k, v in d.items()):
-            equal_old = True
-        cur = opt_effective(cur, d)
+    changed = True
     if wrong and changed and equal_old and all(
             solver.options[k] != v and k != "method" for k, _, v in wrong):
         sig = "method-change-drops-options-equal-to-old-values"
